@@ -32,6 +32,10 @@ def run(tier, seed):
             w = unjsonable(json.load(open(os.path.join(corpus, f))))
             tasks.append({"pid": "C01", "seed": seed, "i": -1, "cfg": CFG, "world": w.get("world", w)})
     tasks += [{"pid": "C01", "seed": seed, "i": i, "cfg": CFG} for i in range(n)]
+    # crowded trash directories: same names many times over, names of 246-255 bytes (the info name must be shortened) with
+    # payloads lacking an info file at the shortened names
+    crowded = dict(CFG, profile="collide")
+    tasks += [{"pid": "C01c", "seed": seed, "i": i, "cfg": crowded} for i in range(n // 5)]
     absorb(ck, "C01", run_tasks(eval_task, tasks), CFG, "Model.Put")
     # conservation must also hold when several trash-put processes share a trash directory
     from . import parworlds
